@@ -186,7 +186,7 @@ theorem scan_eq_pure (f : ℕ → Except ErrKind ℚ) (g : ℕ → ℚ) (lagOf :
 section Inv
 variable (g : ℕ → ℚ) (lagOf : ℕ → ℤ) (dL : ℚ) (L : ℤ)
 
-/-- every candidate with lag `L` has residual `dL`, every other candidate a strictly larger one -/
+/-- every candidate with lag `L` has lagResidual `dL`, every other candidate a strictly larger one -/
 def Sep (is : List ℕ) : Prop := ∀ i ∈ is, (lagOf i = L → g i = dL) ∧ (lagOf i ≠ L → dL < g i)
 
 theorem scanPure_found (is : List ℕ) (h : Sep g lagOf dL L is) :
@@ -252,7 +252,7 @@ theorem scanPure_hit (is : List ℕ) (st : ℚ × ℤ) (h : Sep g lagOf dL L is)
 end Inv
 
 /-- abstract argmin property of the lag search: if the three families of residuals are numbers, the candidates with lag
-`L` have residual `dL` and all others a strictly larger one, and `L` is among the candidates, the search returns `L`. -/
+`L` have lagResidual `dL` and all others a strictly larger one, and `L` is among the candidates, the search returns `L`. -/
 theorem lagSearch_argmin (bm om : List ℚ) (S : ℕ) (L : ℤ) (dL r0 : ℚ) (a b : ℕ → ℚ)
     (h0 : ssd (pySlice bm 0 (-(S : ℤ))) (pySlice om 0 (-(S : ℤ))) = .ok r0)
     (h0' : ((0 : ℤ) = L → r0 = dL) ∧ ((0 : ℤ) ≠ L → dL < r0))
@@ -291,8 +291,8 @@ def lagSum (bm om : List ℚ) (W i : ℕ) : ℚ := ∑ k ∈ Finset.range W, (om
 /-- `Σ_{k<W} (bm[k+i] − om[k])²` — the master read `i` samples later -/
 def leadSum (bm om : List ℚ) (W i : ℕ) : ℚ := ∑ k ∈ Finset.range W, (bm.getD (k + i) 0 - om.getD k 0) ^ 2
 
-/-- spec vocabulary of C18.d: residual of the candidate lag `l` over the compared window of `W` samples -/
-def residual (bm om : List ℚ) (W : ℕ) (l : ℤ) : ℚ :=
+/-- spec vocabulary of C18.d: lagResidual of the candidate lag `l` over the compared window of `W` samples -/
+def lagResidual (bm om : List ℚ) (W : ℕ) (l : ℤ) : ℚ :=
   if 0 ≤ l then lagSum bm om W l.toNat else leadSum bm om W l.natAbs
 
 theorem leadSum_zero (bm om : List ℚ) (W : ℕ) : leadSum bm om W 0 = lagSum bm om W 0 := by
@@ -301,17 +301,17 @@ theorem leadSum_zero (bm om : List ℚ) (W : ℕ) : leadSum bm om W 0 = lagSum b
   intro k _
   simp only [Nat.add_zero]; ring
 
-theorem residual_natCast (bm om : List ℚ) (W i : ℕ) : residual bm om W (i : ℤ) = lagSum bm om W i := by
-  unfold residual
+theorem residual_natCast (bm om : List ℚ) (W i : ℕ) : lagResidual bm om W (i : ℤ) = lagSum bm om W i := by
+  unfold lagResidual
   have : (0 : ℤ) ≤ (i : ℤ) := by omega
   simp [this]
 
 theorem residual_neg_natCast (bm om : List ℚ) (W i : ℕ) :
-    residual bm om W (-(i : ℤ)) = leadSum bm om W i := by
+    lagResidual bm om W (-(i : ℤ)) = leadSum bm om W i := by
   cases i with
   | zero => simp only [Nat.cast_zero, neg_zero]; rw [leadSum_zero]; exact residual_natCast bm om W 0
   | succ j =>
-    unfold residual
+    unfold lagResidual
     have : ¬ (0 : ℤ) ≤ -((j + 1 : ℕ) : ℤ) := by omega
     simp only [this, if_false]
     congr 1
@@ -390,15 +390,15 @@ theorem res0_eq (bm om : List ℚ) (n S : ℕ) (hbm : bm.length = n) (hom : om.l
   have hk' := Finset.mem_range.mp hk
   rw [getD_take_lt bm _ k hk', getD_take_lt om _ k hk', Nat.add_zero]
 
-/-- C18.d core: a strict unique minimum of the residual among the candidate lags `−steps < l < steps` is what the
+/-- C18.d core: a strict unique minimum of the lagResidual among the candidate lags `−steps < l < steps` is what the
 search returns (records of equal length `n ≥ steps`). -/
 theorem lagSearch_unique_min (bm om : List ℚ) (n S : ℕ) (L : ℤ) (hbm : bm.length = n) (hom : om.length = n)
     (hS : S ≤ n) (hL : -(S : ℤ) < L ∧ L < S)
     (hmin : ∀ l : ℤ, -(S : ℤ) < l → l < S → l ≠ L →
-      residual bm om (n - S) L < residual bm om (n - S) l) :
+      lagResidual bm om (n - S) L < lagResidual bm om (n - S) l) :
     lagSearch bm om S = .ok L := by
   have hS1 : 1 ≤ S := by omega
-  apply lagSearch_argmin bm om S L (residual bm om (n - S) L) (leadSum bm om (n - S) 0)
+  apply lagSearch_argmin bm om S L (lagResidual bm om (n - S) L) (leadSum bm om (n - S) 0)
     (lagSum bm om (n - S)) (leadSum bm om (n - S))
     (res0_eq bm om n S hbm hom hS1 hS)
   · constructor
